@@ -146,6 +146,8 @@ def conv_points(P, num, form=None):
     which equal points are one and the same object (a closed polygon written [P0, P1, P2, P0])."""
     if not isinstance(P[0], (list, tuple)):
         return [conv_val(x, num) for x in P]
+    if form == "int64" and all(F(c).denominator == 1 for pt in P for c in pt):
+        return np.array([[int(c) for c in pt] for pt in P], dtype="int64")
     if form == "arrays":
         seen, out = {}, []
         for pt in P:
@@ -175,6 +177,9 @@ def build_curve(case):
     U = [conv_knot(u, num) for u in case["U"]]
     P = conv_points(case["P"], num, case.get("ptform"))
     w = None if case.get("w") is None else [conv_val(x, num) for x in case["w"]]
+    if w is not None and case.get("ptform") == "int64":
+        # integer data throughout: integral weights stay Python ints next to the int64 control points
+        w = [int(x) if F(x).denominator == 1 else conv_val(x, num) for x in case["w"]]
     return Curve(U, P, w)
 
 
